@@ -501,13 +501,17 @@ void coefficient_lcm(const lp_polynomial_context_t* ctx, coefficient_t* lcm, con
     if (coefficient_is_one(ctx, &gcd)) {
       coefficient_mul(ctx, lcm, C1, C2);
     } else {
+      // the quotient goes to a temporary: lcm may be the same object as C1 or C2
+      coefficient_t quot;
+      coefficient_construct(ctx, &quot);
       if (coefficient_cmp_type(ctx, C1, C2) <= 0) {
-        coefficient_div(ctx, lcm, C1, &gcd);
-        coefficient_mul(ctx, lcm, lcm, C2);
+        coefficient_div(ctx, &quot, C1, &gcd);
+        coefficient_mul(ctx, lcm, &quot, C2);
       } else {
-        coefficient_div(ctx, lcm, C2, &gcd);
-        coefficient_mul(ctx, lcm, lcm, C1);
+        coefficient_div(ctx, &quot, C2, &gcd);
+        coefficient_mul(ctx, lcm, &quot, C1);
       }
+      coefficient_destruct(&quot);
     }
     if (coefficient_lc_sgn(ctx, lcm) < 0) {
       coefficient_neg(ctx, lcm, lcm);
